@@ -148,9 +148,14 @@ class Interp:
 
     def call_pymethod(self, pm, args, kwargs):
         obj, name = pm.obj, pm.name
+        if isinstance(obj, (set, frozenset)) and name in ("isdisjoint", "issubset", "union", "intersection") and args \
+                and (isinstance(args[0], V.SymSet) or any(V.is_symbolic_key(x) for x in obj)):
+            from . import prims as P
+            lifted = P.lift_set(self, obj)
+            return self.call(P.value_getattr(self, lifted, name), args, kwargs)
         if isinstance(obj, (list, dict, set, tuple, str)):
             if name in ("append", "add", "extend", "items", "keys", "values", "get", "issubset", "intersection",
-                        "union", "popleft", "copy", "index", "rstrip", "join", "format", "mro", "pop", "update",
+                        "union", "popleft", "copy", "index", "rstrip", "join", "format", "mro", "pop", "update", "isdisjoint",
                         "setdefault", "insert", "count"):
                 return getattr(obj, name)(*args, **kwargs)
         raise Unsupported(f"python method {type(obj).__name__}.{name}")
